@@ -3,6 +3,8 @@ package main
 // Which cases exist for a tier, and how a worker walks through its share.
 
 import (
+	"fmt"
+	"os"
 	"runtime/debug"
 	"time"
 )
@@ -29,13 +31,13 @@ func sweepBList() []Case {
 func surfaceSize(p plan, s string) int {
 	switch s {
 	case "a":
-		return len(sweepAList()) + p.pick(320, 6400)
+		return len(sweepAList()) + p.pick(480, 9600)
 	case "b":
-		return len(sweepBList()) + p.pick(640, 12800)
+		return len(sweepBList()) + p.pick(960, 19200)
 	case "c":
-		return p.pick(1408, 28160)
+		return p.pick(2112, 42240)
 	case "d":
-		return p.pick(1008, 20160)
+		return p.pick(1512, 30240)
 	case "f":
 		return len(fixedCases())
 	}
@@ -119,6 +121,10 @@ func (e *execSet) run(cs Case) bool {
 
 // groupEnd runs the end-of-group monitors of whatever executor is in use; false = replace the process.
 func (e *execSet) groupEnd(surface string) bool {
+	if os.Getenv("C15_DEBUG_TIME") != "" {
+		t0 := time.Now()
+		defer func() { fmt.Fprintf(os.Stderr, "groupEnd %v\n", time.Since(t0)) }()
+	}
 	good := true
 	switch surface {
 	case "a", "b":
